@@ -145,7 +145,7 @@ CLAIMS.update({
         "table restated) and transformLength presence; the transformed-glyf decoder yields, for 1 glyph x 1 contour x 1 point and EVERY flag "
         "byte and data byte of the 1-, 2- and 3-byte triplet classes (4-byte: thorough), exactly the dx/dy/on-curve the W3C triplet "
         "arithmetic prescribes (this covers all 128 COORD_LUT rows); 2 points: cumulative coordinates, endPts, instructions, explicit vs "
-        "computed bounding box; transformed hmtx reconstruction for flags 0-3 with 2-3 glyphs; a one-component composite (thorough: two components with WE_HAVE_INSTRUCTIONS on either).",
+        "computed bounding box; transformed hmtx reconstruction for flags 0-3 with 2-3 glyphs; a one-component composite (a two-component harness exists in the thorough tier but gave no answer in 2400 s: not decided here; the shared component reader is decided under C15).",
         "Outside: brotli, Woff2Font::read, collections, the eager provider (HashMap), loca reconstruction, composites of more than one component in the quick tier, > 2 points, > 1 contour. "
         "One open known finding (hmtx tail rebuilt from the wrong glyphs) is listed in known_findings.json.",
         "DESIGN.md section 6, C11", TECH_KANI),
@@ -190,8 +190,8 @@ CLAIMS.update({
         "third-party canonical-combining-class table replaced by the Unicode classes of an 8-character alphabet (2 bases, marks of classes 230, 230, 220, 33, 27, 103), "
         "scripts::preprocess_text on every 3-character text over that alphabet returns, for the script tags latn, syrc and an unknown tag, the input with each maximal "
         "run of combining marks sorted stably by the crate's modified combining class, every character of class 'not reordered' in place and nothing moved across it "
-        "(compared with a loop-free reference); Myanmar text is returned unchanged. Thorough tier: for tag arab the result is a permutation in which bases keep their "
-        "position, marks stay inside their run and a shadda leads its run.",
+        "(compared with a loop-free reference); Myanmar text is returned unchanged. (An Arabic harness - permutation, bases fixed, marks inside their run, shadda first - exists in the thorough tier "
+        "but gave no answer in 2400 s: Arabic is NOT decided.)",
         "Thin claim. Stubs (listed in evidence): the std stable sort and the class table. Outside: texts longer than 3 characters, characters outside the alphabet, the "
         "Thai/Lao SARA AM split and PHINTHU rule, Indic and Khmer vowel splits, Bengali ya-nukta, Kannada ra-halant-joiner, dotted-circle insertion (all Vec::insert on symbolic "
         "conditions, not attempted), the exact AMTRA order for Arabic. A symbolic script tag is not decidable here (every script's preprocessing enters the formula), hence one harness per tag.",
